@@ -19,7 +19,8 @@ CLAIMS = {
                 "simulator's OWN queue hands out events in every generated simulation (re-timed placements without or with "
                 "reheapify, removed events, per-microsecond retries) is judged by the documented key on the "
                 "implementation's log; the corresponding theorems about the machine with the queue are C03's "
-                "(C03_popped_is_minimal_at_clock, C03_handled_is_popped).",
+                "(C03_popped_is_minimal_at_clock, C03_handled_is_popped). S-time operands of add/sub/associativity cover the "
+                "whole quantified range (each operand below 2^53 us, exact results beyond 2^53).",
         "design_ref": "DESIGN.md §5 C16, §4.1",
         "note": "Coq kernel; translator fragments Time+Event; float exactness below 2^53 and CPython heapq/total_ordering "
                 "are modelled, not verified (checked by S-time / S-queue streams).",
